@@ -7,6 +7,7 @@ import FcpptProofs.C16.BSearch
 import FcpptProofs.C16.BSearchAny
 import FcpptProofs.C16.Assoc2
 import FcpptProofs.C16.Extra
+import FcpptProofs.C16.Callbacks
 /-!
 # C16 — property theorems
 
@@ -512,6 +513,75 @@ theorem dynamic_array_spec (n : Nat) (g : Nat → α) :
 theorem output_spec (render : α → List Char) (xs : List α) :
     output render xs = ['['] ++ [','].intercalate (xs.map render) ++ [']'] := output_eq render xs
 
+/-! ## user functions that observe the container they are called from, and user functions that throw -/
+
+/-- `get_or_insert_with_result` with an arbitrary `create` (it may inspect the container, keep state, throw): found → nothing is
+    called, nothing changes; not found → `create` is called exactly once, with the container as it was passed in -/
+theorem get_or_insert_e_spec (m : Map) (k : Nat) (create : Map → Nat → σ → Except Fault Nat × σ) (s : σ)
+    (hs : Spec.StrictSorted (m.map (·.1))) :
+    getOrInsertE m k create s =
+      match m.lookup k with
+      | some e => (.ok (e, false), m, s)
+      | none =>
+        match create m k s with
+        | (.error e, s') => (.error e, m, s')
+        | (.ok v, s') => (.ok (v, true), mapEmplace k v m, s') := getOrInsertE_eq m k create s hs
+
+/-- `create` never sees the key it is asked to create a value for: what `create` would do on containers that hold the key
+    has no influence on the outcome (the key is inserted only after `create` has returned) -/
+theorem get_or_insert_create_sees_no_key (m : Map) (k : Nat) (create₁ create₂ : Map → Nat → σ → Except Fault Nat × σ) (s : σ)
+    (hs : Spec.StrictSorted (m.map (·.1)))
+    (h : ∀ mm : Map, mm.lookup k = none → create₁ mm k = create₂ mm k) :
+    getOrInsertE m k create₁ s = getOrInsertE m k create₂ s := by
+  rw [getOrInsertE_eq m k create₁ s hs, getOrInsertE_eq m k create₂ s hs]
+  cases hl : m.lookup k with
+  | some e => rfl
+  | none => simp only [h m hl]
+
+/-- if `create` throws, the exception leaves the container exactly as it was (no placeholder entry), so a second attempt
+    calls `create` again -/
+theorem get_or_insert_throw_leaves_map_unchanged (m : Map) (k : Nat) (create : Map → Nat → σ → Except Fault Nat × σ) (s : σ)
+    (hs : Spec.StrictSorted (m.map (·.1))) (e : Fault) (hk : m.lookup k = none) (ht : (create m k s).1 = .error e) :
+    getOrInsertE m k create s = (.error e, m, (create m k s).2)
+    ∧ ∀ (create' : Map → Nat → σ → Except Fault Nat × σ) (s' : σ),
+        getOrInsertE (getOrInsertE m k create s).2.1 k create' s' = getOrInsertE m k create' s' := by
+  have h1 : getOrInsertE m k create s = (.error e, m, (create m k s).2) := by
+    rw [getOrInsertE_eq m k create s hs, hk]
+    rcases hc : create m k s with ⟨r, s'⟩
+    rw [hc] at ht
+    simp only at ht
+    subst ht
+    rfl
+  exact ⟨h1, fun create' s' => by rw [h1]⟩
+
+/-- the index recursion for tuples and mpl lists is the range loop, also with bodies that throw -/
+theorem tupleLoopBreakE_eq_loopBreakE (xs : List α) (body : α → σ → Except Fault Loop × σ) (s : σ) :
+    tupleLoopBreakE xs body 0 s = loopBreakE xs body s := by
+  simpa using tupleLoopBreakE_drop xs body 0 s
+
+/-- a loop body that throws at its `k`-th call: exactly the first `k` elements have been looked at (the records of the first
+    `k - 1` completed calls and of the throwing one are there), nothing behind them; without a throw: everything, once -/
+theorem loop_throw_prefix (k : Nat) (rec : α → σ → σ) (xs : List α) (s : σ) :
+    loopE xs (fun x => throwAt k (rec x) (fun s => ((), s))) (0, s) =
+      if 0 < k ∧ k ≤ xs.length then
+        (.error (.exception (.other "cb")), (k, (xs.take k).foldl (fun s x => rec x s) s))
+      else (.ok (), (xs.length, xs.foldl (fun s x => rec x s) s)) := by
+  simpa using loopE_throwAt k rec xs 0 s
+
+/-- erase while iterating: the action is always handed a container in which the element it is called for is still present -/
+theorem iteration_action_sees_element (rm : α → Bool) (xs : List α) :
+    ∀ p ∈ (iterateE (fun cont e (log : List (List α × α)) => (.ok (rm e), log ++ [(cont, e)])) [] xs []).2.2, p.2 ∈ p.1 :=
+  iterateE_sees_element rm [] xs [] (by simp)
+
+/-- erase while iterating with an action that throws at its `k`-th call: the container holds exactly the effects of the first
+    `k - 1` actions — their removed elements are gone, the `k`-th element and everything behind it are untouched -/
+theorem iteration_throw_prefix (k : Nat) (rm : α → Bool) (rec : List α → α → σ → σ) (xs : List α) (s : σ) :
+    ∃ s', iterateE (fun cont e => throwAt k (rec cont e) (fun s => (rm e, s))) [] xs (0, s) =
+      if 0 < k ∧ k ≤ xs.length then
+        (.error (.exception (.other "cb")), (xs.take (k - 1)).filter (fun x => !rm x) ++ xs.drop (k - 1), (k, s'))
+      else (.ok (), xs.filter (fun x => !rm x), (xs.length, s')) := by
+  simpa using iterateE_throwAt k rm rec [] xs 0 s
+
 /-! ## Non-vacuity and concrete instances -/
 
 example : Spec.SortedBy (fun a b : Nat => decide (a < b)) [0, 1, 1, 2] := by unfold Spec.SortedBy; decide
@@ -529,6 +599,10 @@ example : (allOf [0, 0, 1, 0] (· == 0)).2 = [0, 0, 1] := by rw [all_of_spec]; d
 example : Spec.StrictSorted [0, 2] ∧ (getOrInsert [(0, 5), (2, 7)] 1 (fun k (n : Nat) => (k + 10, n + 1)) 0)
     = (.ok (11, true), [(0, 5), (1, 11), (2, 7)], 1) := ⟨by unfold Spec.StrictSorted; decide, by rfl⟩
 
+-- create throws: nothing is left behind; create that looks for its key in the map does not find it
+example : (getOrInsertE [(0, 5)] 1 (fun _ _ (n : Nat) => (.error (.exception (.other "cb")), n + 1)) 0).2.1 = [(0, 5)] := by decide
+example : getOrInsertE [(0, 5)] 1 (fun mm k (_ : Unit) => (.ok (if (mm.lookup k).isSome then 7 else 3), ())) ()
+    = (.ok (3, true), [(0, 5), (1, 3)], ()) := by decide
 -- a state-dependent action: remove every second element offered
 example : seqIteration [5, 6, 7, 8] (fun _ (n : Nat) => (n % 2 == 1, n + 1)) 0 = ([5, 7], 4) := by
   rw [sequence_iteration_general]; decide
